@@ -26,7 +26,7 @@ Sender-side specification: `Spec/TlsConnection` (`Transcript`: the two hello rec
   ServerHello before the client's CCS); `Causal13` = the first released record is the client's, the second the
   server's. Nothing else about the interleaving. Both halves are needed: `Ex` (1), (2).
   Hypotheses the RFCs do not give:
-  `tls12_connection_exact_statement` / `_counterexample`   any fragmentation of clear-text handshake messages: a
+  `tls12_connection_exact_statement` / `Ex.…_counterexample`   any fragmentation of clear-text handshake messages: a
                              continuation record starting with byte 01 is taken for a ClientHello, everything is lost
   `Ex.fragRun`               TLS 1.3 handshake messages fragmented across protected records: the Finished is missed
   Not covered: early data, HelloRetryRequest, KeyUpdate, alerts, renegotiation, record compression, displaced
